@@ -299,6 +299,9 @@ def run_parent(ch, solvers, op, plan, run_worker, cache, parent=None) -> dict:
     except Exception as e:
         import queue as _q
 
+        if isinstance(e.__cause__, mpsim.HarnessUnsupported) or isinstance(e.__context__, mpsim.HarnessUnsupported):
+            raise e.__context__ or e.__cause__
+
         if classify_exception(e) == "harness" and not (isinstance(e, _q.Empty) and _from_parent(e)):
             raise
         res["outcome"], res["error"] = "raised", e
